@@ -263,6 +263,26 @@ def _classes(case):
 GROUPS = [["zone"], ["lat", "dlon", "on_equator"], ["dist", "brg"], ["ell", "hspell"], ["adj"], ["bkind"]]
 
 
+def _sweep_lines(rnd):
+    """The bearing circle (two lines), the first point's latitude, its offset from the central meridian and the distance (log-spaced
+    1 m .. 100 km) walked on lattices; the other quantities fixed per line by the seed; same-zone and adjacent-zone second points."""
+    out = []
+    for k in range(5):
+        base = {"zone": rnd.randrange(2, 60), "lat": rnd.choice([rnd.uniform(-79.0, -1.0), rnd.uniform(1.0, 83.0)]),
+                "dlon": rnd.uniform(-3.0, 3.0), "dist": 10.0 ** rnd.uniform(2.0, 5.0), "brg": rnd.uniform(0.0, 360.0),
+                "ell": rnd.choice(["grs80", "grs80", "wgs84", "ans", "intl24"]), "adj": rnd.random() < 0.4, "on_equator": False,
+                "hspell": "lower", "bkind": "float"}
+        if k < 2:
+            out.append((1.0, lambda f, b=base: dict(b, brg=360.0 * f)))
+        elif k == 2:
+            out.append((1.0, lambda f, b=base: dict(b, lat=(-79.0 + 78.0 * 2 * f) if f < 0.5 else (1.0 + 82.0 * (2 * f - 1)))))
+        elif k == 3:
+            out.append((1.0, lambda f, b=base: dict(b, dlon=-3.5 + 7.0 * f)))
+        else:
+            out.append((1.0, lambda f, b=base: dict(b, dist=10.0 ** (5.0 * f))))
+    return out
+
+
 def _ends_on_equator(case):
     """Matcher of the open finding 'vincdir_utm towards a point exactly on the equator' (see known_findings.json)."""
     if "seq" in case:       # (a whole recorded sequence, e.g. a corpus entry)
@@ -278,6 +298,12 @@ SUBCHECKS = [
              quick=1000, thorough=50000, shards_quick=4, shards_thorough=16, seq_groups=GROUPS,
              matchers={"ends_on_equator": _ends_on_equator},
              fresh=(8, 64, 3), rule="vincdir_utm with the inverse's bearing and grid distance reproduces point 2 (in zone 1) within 1 mm"),
+    SubCheck("inverse_axis_sweeps", check_inverse_definition, enumerate=S.sweeps(1414, _sweep_lines, 4000, 80000), nontrivial=_nt,
+             classes=_classes, shards_quick=12, shards_thorough=16,
+             rule="stratified sweeps of bearing (2 lines), latitude, offset from the central meridian and distance (4 000 / 80 000 lattice points per line, seeded)"),
+    SubCheck("direct_axis_sweeps", check_direct_inverts, enumerate=S.sweeps(1415, _sweep_lines, 4000, 80000), nontrivial=_nt,
+             classes=_classes, shards_quick=12, shards_thorough=16, matchers={"ends_on_equator": _ends_on_equator},
+             rule="the same sweeps through vincinv_utm -> vincdir_utm (1 mm)"),
     SubCheck("line_scale_factor_bounds", check_lsf_bounds, strategy=lines(), nontrivial=_nt, classes=_classes,
              quick=1200, thorough=60000, shards_quick=4, shards_thorough=16, seq_groups=GROUPS,
              rule="min k - 3e-7 <= lsf <= max k + 3e-7 and |lsf - Simpson mean| <= 5e-7 with k from the exact projection at 0, 1/4, 1/2, 3/4, 1"),
